@@ -85,6 +85,45 @@ def run_one(m, prop, repo=None):
         shutil.rmtree(d, ignore_errors=True)
 
 
+def apply_patch(root, patch):
+    r = subprocess.run(["patch", "-p1", "--quiet", "--no-backup-if-mismatch", "-i", patch], cwd=root, stdout=subprocess.PIPE, stderr=subprocess.STDOUT, text=True)
+    return None if r.returncode == 0 else ("patch does not apply: " + r.stdout[-300:])
+
+
+def run_patch(patch, prop, benign, pid):
+    """A stored independent patch (refactors/: must stay silent; seeded/: must be reported) on a scratch copy of the current tree."""
+    import engine
+    d = make_scratch(engine.repo_dir())
+    try:
+        why = apply_patch(d, patch)
+        if why:
+            return {"id": pid, "result": "skipped", "why": why}
+        try:
+            ctx = engine.evaluate(prop, "quick", repo=d, scratch=True)
+        except engine.BuildFailed as e:
+            return {"id": pid, "result": "skipped", "why": "does not compile: %s" % str(e)[-300:]}
+        bad = [o for o in ctx.obs if o.status != "discharged"]
+        fired = sorted({o.rule for o in bad})
+        if benign:
+            return {"id": pid, "result": "false-alarm", "fired": fired, "keys": [o.fkey() for o in bad][:6]} if bad else {"id": pid, "result": "silent-ok"}
+        return {"id": pid, "result": "killed", "fired": fired, "keys": [o.fkey() for o in bad][:6]} if bad else {"id": pid, "result": "missed", "expected": []}
+    finally:
+        shutil.rmtree(d, ignore_errors=True)
+
+
+def corpus(prop):
+    """(patch path, benign?, id) of the independent corpora that concern `prop`."""
+    import glob
+    out = []
+    for p in sorted(glob.glob(os.path.join(VERIF, "refactors", "%s-r*.diff" % prop))):
+        out.append((p, True, "refactor:" + os.path.basename(p)[:-5]))
+    for dname in sorted(glob.glob(os.path.join(VERIF, "seeded", "%s*" % prop))):
+        p = os.path.join(dname, "patch.diff")
+        if os.path.exists(p):
+            out.append((p, False, "seed:" + os.path.basename(dname)))
+    return out
+
+
 def run(prop, only=None):
     t0 = time.time()
     out = {"applied": 0, "killed": 0, "skipped": 0, "missed": 0, "benign_silent": 0, "false_alarms": 0, "results": []}
@@ -108,6 +147,16 @@ def run(prop, only=None):
                 out["benign_silent"] += 1
             elif k == "false-alarm":
                 out["false_alarms"] += 1
+    if not only and not os.environ.get("HDLINT_NO_CORPUS"):
+        for (patch, benign, pid) in corpus(prop):
+            r = run_patch(patch, prop, benign, pid)
+            out["results"].append(r)
+            k = r["result"]
+            if k == "skipped":
+                out["skipped"] += 1
+            else:
+                out["applied"] += 1
+                out[{"killed": "killed", "missed": "missed", "silent-ok": "benign_silent", "false-alarm": "false_alarms"}[k]] += 1
     out["wall_s"] = round(time.time() - t0, 1)
     return out
 
